@@ -40,7 +40,7 @@ EXTENDS Integers, Sequences, FiniteSets, TLC
 CONSTANTS MaxDepth,      \* TLCGet("level") bound: level N = chains of N-1 constructs
           MaxLen,        \* sequences longer than this are terminal
           InitLen,       \* initial sequences have length 0..InitLen
-          UniverseName,  \* "u3" | "u4" | "u7" | "u9"
+          UniverseName,  \* "u2" | "u3" | "u4" | "u7" | "u9"
           GridName,      \* "small" | "full"
           Groups         \* subset of {"pos", "range", "iter", "agg", "cat"}
 
@@ -211,8 +211,9 @@ LenToks   == IF GridName = "full" THEN FullPos ELSE {"0.5", "1", "1.5", "INF", "
 IntToks   == IF GridName = "full" THEN {"()", "-1", "0", "1", "2", "3", "len", "len+1", "1.5", "2e0"}
              ELSE {"0", "1", "2", "len", "len+1", "2e0"}
 PredToks  == PosToks \cup (IF GridName = "full" THEN {"2.0", "'a'", "true()", "(1,2)"} ELSE {"'a'", "2.0"})
+PosOps    == IF GridName = "full" THEN CmpOps ELSE {"lt", "ge", "eq"}
 KToks     == IF GridName = "full" THEN {"0", "1", "1.5", "2", "3", "len", "len+1", "NaN"} ELSE {"1", "1.5", "len"}
-RangeToks == IF GridName = "full" THEN {"()", "-1", "0", "1", "2", "3"} ELSE {"()", "0", "1", "3"}
+RangeToks == IF GridName = "full" THEN {"()", "-1", "0", "1", "2", "3"} ELSE {"()", "1", "3"}
 ItemKToks == IF GridName = "full" THEN {"1", "2", "2.5", "1e0", "'a'", "NaN"} ELSE {"1", "2.5"}
 ItemOps   == IF GridName = "full" THEN CmpOps ELSE {"gt", "eq", "le"}
 SearchToks == IF GridName = "full" THEN {"()", "1", "1e0", "2.5", "'a'", "NaN", "true()", "2"} ELSE {"1", "'a'", "NaN"}
@@ -463,11 +464,12 @@ ExQuant2(S, q) ==
 ---------------------------------------------------------------------------
 (* universes of items *)
 Sa == Str(<<97>>)
+U2 == {IntV(1), Sa}
 U3 == {IntV(1), Sa, DblNaN}
 U4 == {IntV(1), IntV(2), Dec(5, 2), Sa}
 U7 == {IntV(1), IntV(2), IntV(3), Dec(5, 2), Dbl(1, 1), DblNaN, Sa}
 U9 == U7 \cup {Flt(3, 2), Bool(TRUE)}
-Universe == CASE UniverseName = "u3" -> U3 [] UniverseName = "u4" -> U4
+Universe == CASE UniverseName = "u2" -> U2 [] UniverseName = "u3" -> U3 [] UniverseName = "u4" -> U4
               [] UniverseName = "u7" -> U7 [] UniverseName = "u9" -> U9
 
 (* a state can be used as an operand: a sequence, not too long, exact, small numbers *)
@@ -530,11 +532,11 @@ Comma(side, T)    == On("cat") /\ st' = OK(IF side = "after" THEN S \o T ELSE T 
 
 Next ==
   \/ \E a \in PredToks : PredNum(a)
-  \/ \E op \in CmpOps, k \in KToks : PredPos(op, k)
+  \/ \E op \in PosOps, k \in KToks : PredPos(op, k)
   \/ \E form \in LastForms : PredLast(form)
   \/ \E a \in PosToks : Subseq2(a)
   \/ \E a \in PosToks, b \in LenToks : Subseq3(a, b)
-  \/ \E a \in PosToks, b \in LenToks : SubseqPred(a, b)
+  \/ \E a \in PosToks, b \in (IF GridName = "full" THEN LenToks ELSE {"1.5", "INF"}) : SubseqPred(a, b)
   \/ \E a \in IntToks : Remove(a)
   \/ \E a \in IntToks, T \in InsSeqs : InsertBefore(a, T)
   \/ HeadOf \/ TailOf \/ Reverse
